@@ -289,6 +289,6 @@ def body_escaped(case):
 
 def tests(tier):
     return [
-        TestSpec("path-args", gen_case, body, {"quick": 4000, "thorough": 300000}, tape=2048),
-        TestSpec("escaped", gen_escaped, body_escaped, {"quick": 800, "thorough": 40000}, tape=768),
+        TestSpec("path-args", gen_case, body, {"quick": 4000, "thorough": 300000}, tape=2048, fuzz={"thorough": 40000}),
+        TestSpec("escaped", gen_escaped, body_escaped, {"quick": 800, "thorough": 40000}, tape=768, fuzz={"thorough": 40000}),
     ]
